@@ -27,9 +27,14 @@ def appendix_a():
         print(f"| {name} | {' '.join(e['expected_to_fail']) or '—'} | {' '.join(caught) or '—'} | {verdict} |")
 
 def appendix_c():
+    own_final = {}
+    if os.path.exists('/verif/seeded_own_property_detection.json'):
+        own_final = json.load(open('/verif/seeded_own_property_detection.json'))
     print('| seeded change | target | what it needs to manifest | caught by |')
     print('|---|---|---|---|')
     for d in sorted(glob.glob('/verif/seeded/*')):
+        if not os.path.isdir(d):
+            continue
         name = os.path.basename(d)
         meta = json.load(open(os.path.join(d, 'meta.json')))
         det = {}
@@ -42,8 +47,18 @@ def appendix_c():
             needs = needs[:227] + '...'
         files = ', '.join(meta.get('files_changed', []))
         tgt = meta.get('property', name[:3])
-        own = 'yes' if tgt in caught else 'NO'
-        print(f"| {name} ({files}) | {tgt} | {needs} | {' '.join(caught) or '—'}{' (errors: '+' '.join(errors)+')' if errors else ''}; by its own property's check: {own} |")
+        given = meta.get('given_property')
+        if name in own_final and own_final[name]['by_base_seed']:
+            rcs = own_final[name]['by_base_seed']
+            own = 'yes' if all(rc == 1 for rc in rcs.values()) else 'NO'
+            own += ' (final commit, base seed ' + ','.join(sorted(rcs)) + ')'
+        else:
+            own = 'yes' if tgt in caught else 'NO'
+        if tgt not in caught and own.startswith('yes'):
+            caught = sorted(set(caught) | {tgt})
+        label = tgt if not given else f"{tgt} (given to the sub-agent as {given})"
+        note = meta.get('detection_note')
+        print(f"| {name} ({files}) | {label} | {needs} | {' '.join(caught) or '—'}{' (harness error, exit 2: '+' '.join(errors)+')' if errors else ''}; by its own property's check: {own}{'; ' + note if note else ''} |")
 
 if __name__ == '__main__':
     which = sys.argv[1] if len(sys.argv) > 1 else 'both'
